@@ -1,2 +1,417 @@
+"""Output-type tables and satisfaction assembly (R01.3 / R16.1 / R17.2): symbolic extraction of what each
+descriptor type computes as scriptPubKey / inner script / script code / unsigned scriptSig, and of what is
+appended to the miniscript witness and where it is placed, for the direct, plan and PSBT paths."""
+
+import os
+import sys
+
+from .. import symx, model, linform
+from ..interp import Machine, Adt, Term, PyVec, PyIter, Panic, explore, ok, err, some, NONE, RESULT
+from ..report import Unsupported
+
+sys.path.insert(0, os.path.join(os.path.dirname(__file__), "..", ".."))
+from spec import outputs as spec  # noqa: E402
+
+WSH, WPKH = "descriptor::segwitv0::Wsh", "descriptor::segwitv0::Wpkh"
+BARE, PKH = "descriptor::bare::Bare", "descriptor::bare::Pkh"
+SH, SHI = "descriptor::sh::Sh", "descriptor::sh::ShInner"
+DESC = "descriptor::Descriptor"
+MSV = Term("ms")
+KEY = Term("pk", 0)
+
+
+def values():
+    wsh = Adt(WSH, "Wsh", {"ms": MSV})
+    wpkh = Adt(WPKH, "Wpkh", {"pk": KEY})
+    return {
+        "Bare": Adt(BARE, "Bare", {"ms": MSV}),
+        "Pkh": Adt(PKH, "Pkh", {"pk": KEY}),
+        "Wpkh": wpkh,
+        "Wsh": wsh,
+        "Sh": Adt(SH, "Sh", {"inner": Adt(SHI, "Ms", {"0": MSV})}),
+        "ShWsh": Adt(SH, "Sh", {"inner": Adt(SHI, "Wsh", {"0": wsh})}),
+        "ShWpkh": Adt(SH, "Sh", {"inner": Adt(SHI, "Wpkh", {"0": wpkh})}),
+    }
+
+
+def script_hooks():
+    """models of the rust-bitcoin script / address constructors as term constructors"""
+    h = {}
+
+    def t(name, *idx):
+        return lambda m, a, c: Term(name, *[strip(a[i]) for i in idx])
+    h["bitcoin::Script::to_p2wsh"] = t("p2wsh", 0)
+    h["bitcoin::Script::to_p2sh"] = t("p2sh", 0)
+    h["bitcoin::ScriptBuf::new"] = lambda m, a, c: Term("script")
+    h["bitcoin::script::Builder::new"] = lambda m, a, c: Term("script")
+    h["bitcoin::script::Builder::into_script"] = lambda m, a, c: a[0]
+    h["bitcoin::script::Builder::push_slice"] = lambda m, a, c: Term("script", *(a[0].args + (Term("push", strip(a[1])),)))
+    h["bitcoin::script::Builder::push_key"] = lambda m, a, c: Term("script", *(a[0].args + (Term("pushkey", strip(a[1])),)))
+    h["bitcoin::Address::p2wsh"] = lambda m, a, c: Term("addr", Term("p2wsh", strip(a[0])), a[1])
+    h["bitcoin::Address::p2sh"] = lambda m, a, c: ok(Term("addr", Term("p2sh", strip(a[0])), a[1]))
+    h["bitcoin::Address::p2pkh"] = lambda m, a, c: Term("addr", Term("p2pkh", strip(a[0])), a[1])
+    h["bitcoin::Address::p2wpkh"] = lambda m, a, c: Term("addr", Term("p2wpkh", strip(a[0])), a[1])
+    h["bitcoin::Address::script_pubkey"] = lambda m, a, c: a[0].args[0] if isinstance(a[0], Term) and a[0].op == "addr" else Term("spk_of", a[0])
+    for nm in ("bitcoin::ScriptBuf::into_bytes", "bitcoin::Script::as_bytes", "bitcoin::ScriptBuf::as_bytes",
+               "bitcoin::Script::to_bytes", "bitcoin::PublicKey::to_bytes"):
+        h[nm] = lambda m, a, c: Term("bytes", strip(a[0])) if c.get("name") == "to_bytes" and "PublicKey" in c.get("def", "") else a[0]
+    h["bitcoin::PublicKey::to_bytes"] = lambda m, a, c: Term("keybytes", strip(a[0]))
+    h["ToPublicKey::to_public_key"] = lambda m, a, c: strip(a[0])
+    h["bitcoin::key::CompressedPublicKey::try_from"] = lambda m, a, c: ok(a[0])
+    return h
+
+
+def strip(x):
+    """drop representation-only wrappers"""
+    while isinstance(x, Term) and x.op in ("unwrap", "into", "bytes") and x.args:
+        x = x.args[0]
+    if isinstance(x, Term) and x.op == "call" and str(x.args[0]).endswith("::encode") and len(x.args) == 2:
+        return Term("enc", x.args[1])
+    if isinstance(x, Term) and x.op == "call" and str(x.args[0]).endswith("try_from") and len(x.args) == 2:
+        return strip(x.args[1])
+    return x
+
+
+def nf(x):
+    """term -> oracle notation"""
+    x = strip(x)
+    if isinstance(x, Adt) and x.path == RESULT and x.variant == "Ok":
+        return nf(x.fields["0"])
+    if isinstance(x, Term):
+        if x.op == "enc":
+            return ("enc", "ms")
+        if x.op == "pk":
+            return ("key",)
+        if x.op == "keybytes":
+            return ("keybytes", ("key",))
+        if x.op in ("p2wsh", "p2sh", "p2pkh", "p2wpkh", "push", "pushkey"):
+            return (x.op, nf(x.args[0]))
+        if x.op == "script":
+            if not x.args:
+                return ("script",)
+            if len(x.args) == 1 and x.args[0].op == "push":
+                return nf(x.args[0])
+            return ("script",) + tuple(nf(a) for a in x.args)
+        if x.op == "pushes":
+            return ("pushes", [nf(i) for i in x.args[0].items]) if isinstance(x.args[0], PyVec) else ("pushes", nf(x.args[0]))
+        if x.op in ("W", "T", "sig", "leafscript", "controlblock"):
+            return (x.op,) if x.op != "T" else "T"
+        return ("?", repr(x))
+    if isinstance(x, PyVec):
+        return [nf(i) for i in x.items]
+    if isinstance(x, tuple):
+        return tuple(nf(i) for i in x)
+    return ("?", repr(x))
+
+
+def unint(p, callee):
+    nm = callee.get("name")
+    if nm == "encode" and "Miniscript" in (callee.get("container") or callee.get("def") or ""):
+        return True
+    tr = callee.get("trait") or ""
+    if tr.endswith("ToPublicKey") or tr.endswith("MiniscriptKey") or tr.endswith("Satisfier") or tr.endswith("AssetProvider"):
+        return True
+    return False
+
+
+def method(F, adt, name):
+    for p, f in F.fns.items():
+        if f.get("name") == name and (f.get("container") or "").startswith(adt + "<") and f.get("kind") != "Closure":
+            return p
+    raise KeyError("%s::%s" % (adt, name))
+
+
+def run(F, path, args, extra_hooks=None, assume=None):
+    hooks = script_hooks()
+    hooks["util::witness_to_scriptsig"] = lambda m, a, c: Term("pushes", a[0])
+    if extra_hooks:
+        hooks.update(extra_hooks)
+    m = Machine(F, strict=False, hooks=hooks, uninterpreted=unint)
+    return explore(m, lambda: m.call_path(path, list(args)), assume), m
+
+
+def check_outputs(chk, F, rid):
+    chk.rule(rid, "per descriptor type, scriptPubKey / inner script / ECDSA script code / unsigned scriptSig are the "
+                  "standard encodings computed from the explicit script or key, address(net).script_pubkey = "
+                  "script_pubkey, and sh(X) = p2sh(X's script)")
+    vals = values()
+    adt_of = {"Bare": BARE, "Pkh": PKH, "Wpkh": WPKH, "Wsh": WSH, "Sh": SH, "ShWsh": SH, "ShWpkh": SH}
+    fn_of = {"script_pubkey": "script_pubkey", "inner_script": "inner_script",
+             "script_code": "ecdsa_sighash_script_code", "unsigned_script_sig": "unsigned_script_sig"}
+    n = 0
+    for ty, v in vals.items():
+        for key, fname in fn_of.items():
+            if fname == "unsigned_script_sig" and adt_of[ty] != SH:
+                continue   # only sh has its own; Descriptor::unsigned_script_sig returns the empty script otherwise
+            try:
+                p = method(F, adt_of[ty], fname)
+                res, m = run(F, p, [v])
+            except KeyError as e:
+                chk.fail(rid, "%s|%s|anchor" % (ty, key), "missing %s" % e, kind="unanalysable")
+                continue
+            except Unsupported as e:
+                chk.fail(rid, "%s|%s|unanalysable" % (ty, key), "unanalysable: %s" % e, kind="unanalysable")
+                continue
+            chk.saw(p)
+            vals_ = [r for c, r in res if not (isinstance(r, tuple) and r and r[0] == "panic")]
+            if len(vals_) != 1:
+                chk.fail(rid, "%s|%s|paths" % (ty, key), "%d non-panicking paths" % len(vals_), F.fns[p]["span"], kind="unanalysable")
+                continue
+            got = nf(vals_[0])
+            want = spec.OUTPUTS[ty][key]
+            n += 1
+            chk.obligation(rid, got == want, "%s|%s" % (ty, key),
+                           "%s %s is %r, the standard is %r" % (ty, key, got, want), F.fns[p]["span"],
+                           detail={"type": ty, "function": fname, "got": repr(got), "want": repr(want)})
+            if ty in ("ShWsh", "Wpkh") and key in ("script_pubkey", "script_code"):
+                chk.sample({"type": ty, key: repr(got)})
+        # address agrees with script_pubkey and only the network flows into it
+        if ty != "Bare":
+            try:
+                p = method(F, adt_of[ty], "address")
+                res, m = run(F, p, [v, Term("network")])
+                vals_ = [r for c, r in res if not (isinstance(r, tuple) and r and r[0] == "panic")]
+                a = vals_[0] if len(vals_) >= 1 else None
+                if isinstance(a, Adt) and a.path == RESULT:
+                    a = a.fields["0"]
+                good = isinstance(a, Term) and a.op == "addr" and nf(a.args[0]) == spec.OUTPUTS[ty]["script_pubkey"] \
+                    and a.args[1] == Term("network")
+                n += 1
+                chk.obligation(rid, good, "%s|address" % ty,
+                               "%s address(network) is %r; expected the address of %r on that network"
+                               % (ty, a, spec.OUTPUTS[ty]["script_pubkey"]), F.fns[p]["span"])
+            except (KeyError, Unsupported) as e:
+                chk.fail(rid, "%s|address|unanalysable" % ty, "unanalysable: %s" % e, kind="unanalysable")
+    chk.floor(rid, "output table cells", n, 28)
+
+
+def check_direct_assembly(chk, F, rid):
+    chk.rule(rid, "direct satisfaction assembly: wsh -> witness ++ [witness script], empty scriptSig; sh(ms) -> "
+                  "scriptSig pushes of witness ++ [redeem script]; sh(wsh)/sh(wpkh) -> inner witness, scriptSig = push of "
+                  "the inner program; bare -> scriptSig pushes; pkh/wpkh -> sig, key; both modes")
+    vals = values()
+    adt_of = {"Bare": BARE, "Pkh": PKH, "Wpkh": WPKH, "Wsh": WSH, "Sh": SH, "ShWsh": SH, "ShWpkh": SH}
+    sat_hooks = {}
+    for nm in ("satisfy", "satisfy_malleable"):
+        try:
+            sat_hooks[F.fn(nm, file="miniscript/mod.rs", container="Miniscript")] = lambda m, a, c: ok(PyVec([Term("W")]))
+        except KeyError as e:
+            chk.fail(rid, "anchor|" + nm, "missing %s" % e, kind="unanalysable")
+            return
+    sat_hooks["bitcoin::ecdsa::Signature::to_vec"] = lambda m, a, c: Term("sig")
+    sat_hooks["bitcoin::ecdsa::Signature::serialize"] = lambda m, a, c: Term("sig")
+    sat_hooks["<bitcoin::ecdsa::SerializedSignature as std::convert::AsRef<bitcoin::script::PushBytes>>::as_ref"] = lambda m, a, c: a[0]
+
+    def assume(term, taken):
+        if term.op == "is" and "lookup_ecdsa_sig" in repr(term.args[0]):
+            return term.args[1] == "Some"
+        return None
+    for ty, v in vals.items():
+        for fname in ("get_satisfaction", "get_satisfaction_mall"):
+            try:
+                p = method(F, adt_of[ty], fname)
+                res, m = run(F, p, [v, Term("satisfier")], sat_hooks, assume)
+            except KeyError as e:
+                chk.fail(rid, "%s|%s|anchor" % (ty, fname), "missing %s" % e, kind="unanalysable")
+                continue
+            except Unsupported as e:
+                chk.fail(rid, "%s|%s|unanalysable" % (ty, fname), "unanalysable: %s" % e, kind="unanalysable")
+                continue
+            chk.saw(p)
+            oks = [r.fields["0"] for c, r in res if isinstance(r, Adt) and r.path == RESULT and r.variant == "Ok"]
+            if len(oks) != 1:
+                chk.fail(rid, "%s|%s|paths" % (ty, fname), "%d success paths" % len(oks), F.fns[p]["span"], kind="unanalysable")
+                continue
+            wit, ssig = oks[0]
+            got = (nf(wit), nf(ssig))
+            want = spec.SATISFACTION[ty]
+            chk.obligation(rid, got == (list(want[0]), want[1]), "%s|%s" % (ty, fname),
+                           "%s::%s returns (witness, scriptSig) = %r; the standard placement is %r"
+                           % (ty, fname, got, want), F.fns[p]["span"],
+                           detail={"type": ty, "got": repr(got), "want": repr(want)})
+            if ty in ("Sh", "ShWsh") and fname == "get_satisfaction":
+                chk.sample({"type": ty, "witness": repr(got[0]), "scriptSig": repr(got[1])})
+
+
+def check_plan_assembly(chk, F, rid):
+    chk.rule(rid, "Plan::satisfy assembles per descriptor type exactly what the direct path does: the completed "
+                  "template, plus the witness script (wsh, sh-wsh) or redeem script (sh) and the unsigned scriptSig")
+    try:
+        p = F.fn("satisfy", file="plan.rs", container="Plan<")
+        desc_type = F.fn("desc_type", file="descriptor/mod.rs")
+        explicit = F.fn("explicit_script", file="descriptor/mod.rs")
+        uss = [x for x in F.fn("unsigned_script_sig", file="descriptor/mod.rs", allow_many=True)][0]
+        satisfy_self = F.fn("satisfy_self", file="satisfy/mod.rs")
+    except (KeyError, IndexError) as e:
+        chk.fail(rid, "anchors", "missing %s" % e, kind="unanalysable")
+        return
+    chk.saw(p)
+    DT = "descriptor::DescriptorType"
+    if DT not in F.adts:
+        chk.fail(rid, "DescriptorType", "not found", kind="unanalysable")
+        return
+    variants = F.variants(DT)
+    chk.floor(rid, "DescriptorType variants", len(variants), 8)
+    for dt in variants:
+        hooks = {
+            desc_type: lambda m, a, c, dt=dt: Adt(DT, dt),
+            explicit: lambda m, a, c: ok(Term("enc", MSV)),
+            uss: lambda m, a, c: Term("unsigned_script_sig"),
+            satisfy_self: lambda m, a, c: some(Term("T")),
+            "bitcoin::script::PushBytesBuf::try_from": lambda m, a, c: ok(a[0]),
+        }
+        plan = Adt("plan::Plan", "Plan", {"template": PyVec([Term("tmpl")]), "absolute_timelock": NONE,
+                                          "relative_timelock": NONE, "descriptor": Term("descriptor")})
+        try:
+            res, m = run(F, p, [plan, Term("stfr")], hooks)
+        except Unsupported as e:
+            chk.fail(rid, dt + "|unanalysable", "unanalysable: %s" % e, F.fns[p]["span"], kind="unanalysable")
+            continue
+        oks = [r.fields["0"] for c, r in res if isinstance(r, Adt) and r.path == RESULT and r.variant == "Ok"]
+        if len(oks) != 1:
+            chk.fail(rid, dt + "|paths", "%d success paths" % len(oks), F.fns[p]["span"], kind="unanalysable")
+            continue
+        wit, ssig = oks[0]
+        gw = nf(wit)
+        if isinstance(ssig, Term) and ssig.op == "unsigned_script_sig":
+            gs = "unsigned_script_sig"
+        elif isinstance(ssig, Term) and ssig.op == "script":
+            gs = ("pushes", [nf(a.args[0]) for a in ssig.args]) if ssig.args else ("script",)
+        else:
+            gs = nf(ssig)
+        want = spec.PLAN.get(dt)
+        if want is None:
+            chk.fail(rid, dt + "|unknown", "DescriptorType::%s is not in the oracle" % dt, F.fns[p]["span"])
+            continue
+        chk.obligation(rid, (gw, gs) == (list(want[0]), want[1]), dt,
+                       "Plan::satisfy for %s returns (witness, scriptSig) = (%r, %r); the spend needs (%r, %r)"
+                       % (dt, gw, gs, want[0], want[1]), F.fns[p]["span"],
+                       detail={"type": dt, "got": repr((gw, gs)), "want": repr(want)})
+
+
+def check_plan_sizes(chk, F, rid):
+    chk.rule(rid, "the sizes a plan announces count everything Plan::satisfy puts into the witness / scriptSig")
+    try:
+        ws = F.fn("witness_size", file="plan.rs", container="Plan<")
+        ss = F.fn("scriptsig_size", file="plan.rs", container="Plan<")
+        desc_type = F.fn("desc_type", file="descriptor/mod.rs")
+    except KeyError as e:
+        chk.fail(rid, "anchors", "missing %s" % e, kind="unanalysable")
+        return
+    chk.saw(ws, ss)
+    DT = "descriptor::DescriptorType"
+    for dt in F.variants(DT):
+        segv = {"Wpkh": "V0", "Wsh": "V0", "ShWpkh": "V0", "ShWsh": "V0", "Tr": "V1"}.get(dt)
+        hooks = {
+            desc_type: lambda m, a, c, dt=dt: Adt(DT, dt),
+            "util::witness_size": lambda m, a, c: Term("size_of_template"),
+        }
+        try:
+            sv = F.fn("segwit_version", file="descriptor/mod.rs")
+        except KeyError:
+            sv = None
+        plan = Adt("plan::Plan", "Plan", {"template": PyVec([Term("tmpl")]), "absolute_timelock": NONE,
+                                          "relative_timelock": NONE, "descriptor": Term("descriptor")})
+        m = Machine(F, strict=False, hooks=hooks, uninterpreted=lambda p, c: c.get("name") in ("explicit_script", "len", "script_size", "varint_len", "push_opcode_size"))
+        try:
+            w = m.call_path(ws, [plan])
+            s_ = m.call_path(ss, [plan])
+        except (Unsupported, Panic) as e:
+            chk.fail(rid, dt + "|unanalysable", "unanalysable: %s" % e, kind="unanalysable")
+            continue
+        wn = repr(w)
+        sn = repr(s_)
+        needs_script_in_witness = dt in ("Wsh", "ShWsh")
+        needs_script_in_sig = dt == "Sh"
+        if needs_script_in_witness:
+            chk.obligation(rid, "explicit_script" in wn or "script_size" in wn or "enc" in wn, "witness_size|" + dt,
+                           "Plan::witness_size for %s is %s: it does not count the witness script that Plan::satisfy "
+                           "appends" % (dt, wn), F.fns[ws]["span"])
+        else:
+            chk.obligation(rid, (dt in spec.SEGWIT_TYPES) == ("size_of_template" in wn), "witness_size|" + dt,
+                           "Plan::witness_size for %s is %s" % (dt, wn), F.fns[ws]["span"])
+        if needs_script_in_sig:
+            chk.obligation(rid, "explicit_script" in sn or "script_size" in sn, "scriptsig_size|" + dt,
+                           "Plan::scriptsig_size for %s is %s: it does not count the redeem script" % (dt, sn),
+                           F.fns[ss]["span"])
+        elif dt in ("Bare", "Pkh"):
+            chk.obligation(rid, "size_of_template" in sn, "scriptsig_size|" + dt,
+                           "Plan::scriptsig_size for %s is %s (the template goes into the scriptSig)" % (dt, sn), F.fns[ss]["span"])
+        elif dt == "ShWsh":
+            chk.obligation(rid, s_ == 35, "scriptsig_size|" + dt, "Plan::scriptsig_size for sh(wsh) is %s, expected 35" % sn, F.fns[ss]["span"])
+        elif dt == "ShWpkh":
+            chk.obligation(rid, s_ == 23, "scriptsig_size|" + dt, "Plan::scriptsig_size for sh(wpkh) is %s, expected 23" % sn, F.fns[ss]["span"])
+        else:
+            chk.obligation(rid, s_ == 1, "scriptsig_size|" + dt, "Plan::scriptsig_size for %s is %s, expected 1 (empty script)" % (dt, sn), F.fns[ss]["span"])
+
+
+def check_tap_assembly(chk, F, rid):
+    chk.rule(rid, "taproot script-path assembly: best_tap_spend and the PSBT finalizer append [leaf script, control "
+                  "block] in that order after the leaf's witness; the key path is the single key-spend signature")
+    PH = "miniscript::satisfy::Placeholder"
+    try:
+        bts = F.fn("best_tap_spend", file="descriptor/tr/mod.rs")
+    except KeyError as e:
+        chk.fail(rid, "anchor", "missing %s" % e, kind="unanalysable")
+        return
+    chk.saw(bts)
+    th = F.thir(bts)["body"]
+    pushes = []
+    for n in symx.find_nodes(th, lambda n: n.get("k") == "call" and "callee" in n and n["callee"].get("name") == "push"):
+        arg = symx.strip_expr(n["args"][1])
+        if arg.get("k") == "adt" and arg.get("adt") == PH:
+            pushes.append((arg["variant"], n.get("sp", "")))
+    order = [v for v, _ in pushes]
+    chk.obligation(rid, order == ["TapScript", "TapControlBlock"], "best_tap_spend|order",
+                   "best_tap_spend appends %s to the leaf witness; BIP341 requires [script, control block]" % order,
+                   F.fns[bts]["span"])
+    # the key path
+    keysp = [n for n in symx.find_nodes(th, lambda n: n.get("k") == "adt" and n.get("adt") == "miniscript::satisfy::SchnorrSigType")]
+    chk.obligation(rid, any(n["variant"] == "KeySpend" for n in keysp), "best_tap_spend|keyspend",
+                   "best_tap_spend has no key-spend signature placeholder", F.fns[bts]["span"])
+    # the script and control block come from the same leaf
+    srcs = []
+    for n in symx.find_nodes(th, lambda n: n.get("k") == "call" and "callee" in n and n["callee"].get("name") in ("script", "control_block")):
+        recv = symx.strip_expr(n["args"][0])
+        srcs.append((n["callee"]["name"], recv.get("name")))
+    chk.obligation(rid, len(set(r for _, r in srcs)) == 1 and set(nm for nm, _ in srcs) == {"script", "control_block"},
+                   "best_tap_spend|same-leaf", "leaf script and control block are taken from %r (must be the same leaf)" % srcs,
+                   F.fns[bts]["span"])
+    # PSBT finalizer
+    try:
+        ctw = F.fn("construct_tap_witness", file="psbt/finalizer.rs")
+        chk.saw(ctw)
+        th = F.thir(ctw)["body"]
+        calls = symx.callsites(F, ctw)
+        pushes = [c for c in calls if c["name"] == "push"]
+        txt = []
+        for c in pushes:
+            a = symx.strip_expr(c["args"][1])
+            txt.append(repr_expr(a))
+        chk.obligation(rid, len(txt) >= 2 and "script" in txt[-2] and "control_block" in txt[-1] or
+                       (len(txt) >= 2 and "control" in txt[-1]), "construct_tap_witness|order",
+                       "PSBT construct_tap_witness pushes %r after the leaf witness; expected the leaf script then the "
+                       "control block" % (txt,), F.fns[ctw]["span"])
+    except KeyError as e:
+        chk.fail(rid, "construct_tap_witness|anchor", "missing %s" % e, kind="unanalysable")
+
+
+def repr_expr(e):
+    """short textual rendering of a THIR expression: the names it mentions"""
+    names = []
+
+    def f(n):
+        if n.get("k") in ("var", "upvar"):
+            names.append(n["name"])
+        if n.get("k") == "call" and "callee" in n:
+            names.append(n["callee"].get("name") or "")
+        if n.get("k") == "field":
+            names.append(n["name"])
+    symx.walk(e, f)
+    return " ".join(names)
+
+
 def check_assembly(chk, F, rid):
-    pass
+    check_direct_assembly(chk, F, rid)
+    check_plan_assembly(chk, F, rid + "p")
+    check_tap_assembly(chk, F, rid + "t")
